@@ -65,10 +65,11 @@ def fb_cases(rng, tier):
     ps = [0, 1, 3, 4, 5, 252, 253, 254, 500, 1000, 1001, 5000, 10 ** 5, U32 - 1, U32, 2 ** 40]
     ests = [0, 252, 253, 254, 1000, 1002, 5000, 10 ** 6, U32 - 1]
     cases = set()
-    for w in ws:
+    ests_x = (253, 1002) if tier == "quick" else (253, 1000, 1002, 5000)
+    for w in (ws if tier != "quick" else [0, 7, 8, 9, 400, 999, 1000, 1200, 40000, 4000000]):
         for amt in amts:
             for p in ps:
-                for est in (253, 1000, 1002, 5000):
+                for est in ests_x:
                     for s in (0, 1, 2):
                         cases.add((w, amt, 546, p, s, est))
     for _ in range(3000 if tier == "quick" else 200000):
@@ -468,6 +469,24 @@ def judge_arith(cs, impl):
     return fails
 
 
+MODEL_TARGETS = ["Model/PackageTimer.vo", "Model/OnchainClaims.vo", "Gen/PackageFeerate.vo", "Gen/CltvChecks.vo"]
+
+
+def _with_retry(ctx, fn):
+    """coq_eval reads the shared coq/Gen/*.vo outside the build lock; if another check regenerates or
+    rebuilds them in between (concurrent development only), rebuild once and retry."""
+    try:
+        return fn()
+    except RuntimeError as ex:
+        msg = str(ex)
+        if "Cannot find library" not in msg and "inconsistent assumptions" not in msg and "is not a valid" not in msg:
+            raise
+        ctx.log("shared Gen/*.vo changed under us; regenerating and retrying once")
+        generate(ctx)
+        ctx.coq_make(MODEL_TARGETS)
+        return fn()
+
+
 def run(ctx):
     ok_build, out = ctx.build_harness(BINS)
     if not ok_build:
@@ -483,7 +502,7 @@ def run(ctx):
         gen_err = repr(ex)
     proved, okm = False, False
     if gen_err is None:
-        okm, outm = ctx.coq_make(["Model/PackageTimer.vo", "Gen/PackageFeerate.vo", "Gen/CltvChecks.vo"])
+        okm, outm = ctx.coq_make(MODEL_TARGETS)
         if not okm:
             ctx.log("model build failed:", outm[-1500:])
         proved = ctx.prove("C07")
@@ -494,6 +513,7 @@ def run(ctx):
         "Coq 8.16.1 kernel + vm_compute (no native_compute)",
         "tools/rs2v (Gen/Package.v, Gen/CltvChecks.v, Gen/Consts.v, Gen/PackageFeerate.v regenerated from the Rust source every run; rewrites listed in the generated comments)",
         "Model/PackageTimer.v (hand transliteration of the input walks of get_height_timer/package_locktime), tied by functional correspondence through lightning feature _verif_hooks",
+        "Model/OnchainClaims.v (hand model of claim requests, event maturation and get_claimable_balances after a unilateral close), tied by per-block trace correspondence with real monitors (h_onchain)",
         "harness crate /verif/harness (h_feebump" + (", h_onchain" if "h_onchain" in BINS else "") + "), LDK functional_test_utils, bitcoinconsensus",
     ]
     ctx.assumptions += ["fee-bump range: 8 <= weight <= 4e6, claimed value <= 21e6 BTC, previous_feerate*weight <= 2^63 (invariant of trajectories with dust limit > 0)",
@@ -503,7 +523,7 @@ def run(ctx):
     dis = None
     if impl is not None and okm:
         try:
-            model = run_model(ctx, cs)
+            model = _with_retry(ctx, lambda: run_model(ctx, cs))
             dis = diff(cs, impl, model)
         except RuntimeError as ex:
             dis = [{"topic": "model-eval", "error": str(ex)[-800:]}]
@@ -524,7 +544,15 @@ def run(ctx):
     trace_fails, n_trace = [], 0
     if "h_onchain" in BINS:
         from props.c07 import onchain
-        trace_fails, n_trace = onchain.run(ctx)
+        trace_fails, n_trace, recs = onchain.run(ctx)
+        if okm and proved:
+            try:
+                mdis, ncases, nobs = _with_retry(ctx, lambda: onchain.model_correspondence(ctx, recs, 100 if ctx.tier == "quick" else 3000))
+            except RuntimeError as ex:
+                mdis, ncases, nobs = [{"error": str(ex)[-800:]}], 0, 0
+            ctx.coverage["onchain_model_traces"] = {"node_traces": ncases, "observations": nobs}
+            if mdis:
+                dis = (dis or []) + [dict(d, topic="onchain-model-trace") for d in mdis[:5]]
     ctx.coverage["evaluations"] = n_func + n_trace
     ctx.coverage["distinct_nontrivial"] = n_func + n_trace
     ctx.coverage["rule"] = ("functional: distinct (set) boundary cross products + seeded random inputs per function, trajectories of 1-12 bumps; "
